@@ -88,6 +88,7 @@ type FnEnc struct {
 	cellClos map[*ssa.Alloc]*ClosInfo
 	curCallRecv ssa.Value
 	compT    map[string]types.Type
+	qctx     string // context name for quantifier ids
 	flags    []string // assumption switches, in order of declaration
 	litOrder []string
 }
@@ -132,6 +133,54 @@ func (fe *FnEnc) define(prefix string, t Term) Term {
 	c := fe.fresh(prefix, t.Sort)
 	fe.emit("(assert (= " + c.S + " " + t.S + "))")
 	return c
+}
+
+// assumeClause assumes a contract clause; a clause that is a conjunction of predicate calls gets one switch per
+// conjunct (flag.predName) so that uses(...) lists can pick single conjuncts (uses(wf.wfW1)).
+func (fe *FnEnc) assumeClause(st *State, flag string, ex Expr, env0 *Env) {
+	e1 := *env0
+	e1.pol = 1
+	env := &e1
+	parts := fe.topConjuncts(ex, env, 0)
+	fe.qctx = flag
+	if len(parts) <= 1 {
+		fe.assumeFlagged(st, flag, fe.trBool(ex, env))
+		return
+	}
+	seen := map[string]int{}
+	for i, p := range parts {
+		fe.qctx = flag
+		name := fmt.Sprintf("%d", i)
+		if c, ok := p.(ECall); ok {
+			name = c.Fn
+		}
+		seen[name]++
+		if seen[name] > 1 {
+			name = fmt.Sprintf("%s%d", name, seen[name])
+		}
+		fe.assumeFlagged(st, flag+"."+name, fe.trBool(p, env))
+	}
+}
+
+// topConjuncts splits A && B && pred(...) where pred itself is a conjunction (one level of expansion per step).
+func (fe *FnEnc) topConjuncts(ex Expr, env *Env, depth int) []Expr {
+	switch x := ex.(type) {
+	case EBin:
+		if x.Op == "&&" {
+			return append(fe.topConjuncts(x.L, env, depth), fe.topConjuncts(x.R, env, depth)...)
+		}
+	case ECall:
+		if p := fe.findPred(env, x.Fn); p != nil && len(p.Params) == len(x.Args) && depth < 2 {
+			if b, ok := p.Body.(EBin); ok && b.Op == "&&" {
+				m := map[string]Expr{}
+				for i, pn := range p.Params {
+					m[pn] = x.Args[i]
+				}
+				return fe.topConjuncts(substExpr(p.Body, m), env, depth+1)
+			}
+		}
+	}
+	return []Expr{ex}
 }
 
 // assumeFlagged asserts an assumption that individual obligations can switch off (uses(...) lists).
@@ -786,14 +835,20 @@ func (fe *FnEnc) pkgShort() string {
 func (fe *FnEnc) flagSettings(o *Obl) []string {
 	var out []string
 	for _, f := range fe.flags[:o.NFlags] {
-		on := o.Uses == nil
+		on := o.Uses == nil || strings.HasPrefix(f, "pre.")
 		for _, u := range o.Uses {
-			if u == f || (strings.HasSuffix(u, "*") && strings.HasPrefix(f, strings.TrimSuffix(u, "*"))) {
+			if u == f || strings.HasPrefix(f, u+".") || (strings.HasSuffix(u, "*") && strings.HasPrefix(f, strings.TrimSuffix(u, "*"))) {
 				on = true
 			}
-			// Key:label matches call.Key@n.label for every call occurrence
-			if k, l, ok := strings.Cut(u, ":"); ok && strings.HasPrefix(f, "call."+k+"@") && strings.HasSuffix(f, "."+l) {
-				on = true
+			// Key:label matches call.Key@n.label (and its conjunct switches) for every call occurrence
+			if k, l, ok := strings.Cut(u, ":"); ok && strings.HasPrefix(f, "call."+k+"@") {
+				rest := f[len("call."+k+"@"):]
+				if i := strings.Index(rest, "."); i >= 0 {
+					rest = rest[i+1:]
+					if rest == l || strings.HasPrefix(rest, l+".") {
+						on = true
+					}
+				}
 			}
 		}
 		if on {
@@ -823,6 +878,8 @@ func resolveUses(uses []string, ord int, self string) []string {
 					continue
 				}
 			}
+			out = append(out, u)
+		case strings.HasPrefix(u, "assert."):
 			out = append(out, u)
 		case ord > 0:
 			out = append(out, fmt.Sprintf("L%d.%s", ord, u))
@@ -887,6 +944,7 @@ func (fe *FnEnc) addOblExpr(st *State, kind, label string, props []string, ex Ex
 	if len(parts) > 40 {
 		parts = []Expr{ex}
 	}
+	fe.qctx = "goal." + kind + "." + label
 	var ts []Term
 	for _, p := range parts {
 		ts = append(ts, fe.trBool(p, env))
